@@ -481,7 +481,7 @@ func init() {
 	meta("C20", []string{
 		"the step from 'every access to the shared message happens inside one critical section of the filter's mutex, which is released on return' to data-race freedom and linearizability is the standard mutex argument and is trusted, not derived by the solver",
 	}, []string{"bounded interleaving exploration", "escape of the message pointer through MsgFilterLoad()/LoadFilter (documented API behaviour)", "GCS immutability is checked in the gcs harnesses when present"},
-		"every exported *Filter method from loaded/unloaded states, HashFuncs<=2", "same")
+		"every exported *Filter method and the package-level GetMatchedIndices(block, filter) from loaded/unloaded states, HashFuncs<=2; natively: one call per update flag x output-script class under a 5 s watchdog (a re-entrant lock never returns), then the 8-goroutine race stress", "same")
 	props["C20"].Explanation = "Lock-discipline verification: each exported method of bloom.Filter is executed symbolically from an arbitrary state with sync.Mutex modelled as a ghost flag; every load/store of the shared message (and everything reachable from it) while the flag is down, a double lock, or a return with the flag up is an obligation failure, which is then confirmed natively by an 8-goroutine stress run under the race detector before it is reported."
 }
 
